@@ -78,6 +78,7 @@ type c01issCase struct {
 	AllowUnlockFault bool              `json:"allow_unlock_fault,omitempty"`
 	AcctSeed         map[string]string `json:"acct_seed,omitempty"`   // e-mail -> full | regonly: account already in storage
 	CancelWait       map[string]int    `json:"cancel_wait,omitempty"` // tid -> cancel the request after it has been waiting for its lock for that many steps of others
+	Backend          string            `json:"backend,omitempty"`     // "" in-memory Locker double | "file": the real FileStorage behind the gate
 	Class            string            `json:"class"`
 }
 
@@ -148,7 +149,7 @@ type c01issRT struct {
 	inst     string
 	cfg      *certmagic.Config
 	cache    *certmagic.Cache
-	storage  *doubles.MemStorage
+	storage  certmagic.Storage
 	ctx      context.Context
 	cancel   context.CancelFunc
 	eff      string // effective name the operation works with
@@ -171,7 +172,7 @@ type c01issRT struct {
 
 type c01issEnv struct {
 	cs       c01issCase
-	b        *doubles.MemBackend
+	b        c01Backend
 	ca       *doubles.CA
 	names    c01Intern
 	lockT    c01Intern
@@ -223,7 +224,7 @@ func (i *c01issIssuer) Issue(ctx context.Context, csr *x509.CertificateRequest) 
 		names = append(names, ip.String())
 	}
 	key := "dbl:" + strings.ToLower(strings.Join(names, ","))
-	if _, err := i.e.b.Log.Begin(doubles.Op{Inst: i.rt.inst, Kind: "IssueStart", Key: key}); err != nil {
+	if _, err := i.e.b.GetLog().Begin(doubles.Op{Inst: i.rt.inst, Kind: "IssueStart", Key: key}); err != nil {
 		return nil, err
 	}
 	i.e.mu.Lock()
@@ -236,7 +237,7 @@ func (i *c01issIssuer) Issue(ctx context.Context, csr *x509.CertificateRequest) 
 	}
 	nb := time.Now().Add(-back)
 	chain, _, _, lerr := i.e.ca.Leaf(doubles.LeafOpts{Names: names, NotBefore: nb, NotAfter: nb.Add(90 * 24 * time.Hour), Pub: csr.PublicKey, Serial: serial})
-	if _, err := i.e.b.Log.Begin(doubles.Op{Inst: i.rt.inst, Kind: "IssueEnd", Key: key}); err != nil {
+	if _, err := i.e.b.GetLog().Begin(doubles.Op{Inst: i.rt.inst, Kind: "IssueEnd", Key: key}); err != nil {
 		return nil, err
 	}
 	if lerr != nil {
@@ -249,7 +250,7 @@ func (i *c01issIssuer) Issue(ctx context.Context, csr *x509.CertificateRequest) 
 }
 
 func (i *c01issIssuer) GetRenewalInfo(ctx context.Context, cert certmagic.Certificate) (acme.RenewalInfo, error) {
-	if _, err := i.e.b.Log.Begin(doubles.Op{Inst: i.rt.inst, Kind: "AriGet", Key: "dbl"}); err != nil {
+	if _, err := i.e.b.GetLog().Begin(doubles.Op{Inst: i.rt.inst, Kind: "AriGet", Key: "dbl"}); err != nil {
 		return acme.RenewalInfo{}, err
 	}
 	ra := time.Now().Add(6 * time.Hour)
@@ -348,7 +349,7 @@ func (e *c01issEnv) setupThread(i int, sp c01issThread) (*c01issRT, error) {
 	iss := &c01issIssuer{e: e, rt: rt}
 	tmpl := certmagic.Config{ReusePrivateKeys: sp.Reuse, DisableStorageCheck: sp.NoChk}
 	tmpl.OnEvent = func(ctx context.Context, event string, data map[string]any) error {
-		_, err := e.b.Log.Begin(doubles.Op{Inst: rt.inst, Kind: "Event", Key: event})
+		_, err := e.b.GetLog().Begin(doubles.Op{Inst: rt.inst, Kind: "Event", Key: event})
 		return err
 	}
 	rt.cfg, rt.cache = doubles.NewConfig(rt.storage, tmpl, certmagic.CacheOptions{}, iss)
@@ -393,12 +394,12 @@ func (e *c01issEnv) setupThread(i int, sp c01issThread) (*c01issRT, error) {
 		tmplIss := certmagic.ACMEIssuer{CA: c09CA.URL, Email: email, Agreed: true, Logger: zap.NewNop(),
 			// every request to the CA passes the issuer's proxy callback, on the caller's goroutine: the gate
 			HTTPProxy: func(req *http.Request) (*url.URL, error) {
-				_, err := e.b.Log.Begin(doubles.Op{Inst: rt.inst, Kind: "CAReq", Key: req.URL.Path})
+				_, err := e.b.GetLog().Begin(doubles.Op{Inst: rt.inst, Kind: "CAReq", Key: req.URL.Path})
 				return nil, err
 			}}
 		if sp.Cb {
 			tmplIss.NewAccountFunc = func(ctx context.Context, _ *certmagic.ACMEIssuer, acct acme.Account) (acme.Account, error) {
-				_, err := e.b.Log.Begin(doubles.Op{Inst: rt.inst, Kind: "Event", Key: "new_account_func"})
+				_, err := e.b.GetLog().Begin(doubles.Op{Inst: rt.inst, Kind: "Event", Key: "new_account_func"})
 				return acct, err
 			}
 		}
@@ -462,7 +463,7 @@ func (e *c01issEnv) setupThread(i int, sp c01issThread) (*c01issRT, error) {
 		vk = e.names.id(certmagic.StorageKeys.Safe(rt.ascii))
 		idn = e.ids.id("dbl:" + strings.ToLower(rt.ascii))
 	}
-	lk = e.lockT.id(rt.lockKey)
+	lk = e.lockT.id(e.b.LockID(rt.lockKey))
 	e.obs.Cfgs = append(e.obs.Cfgs, []int{progCode, flag, lk, pk, vk, idn, c01B2i(sp.Reuse), c01B2i(!sp.NoChk), c01B2i(sp.Force), c01B2i(sp.IssDue)})
 	return rt, nil
 }
@@ -600,11 +601,11 @@ func (e *c01issEnv) encodeOp(rt *c01issRT, op doubles.Op) ([4]int, string) {
 	desc := op.Kind + " " + op.Key
 	switch op.Kind {
 	case "Lock":
-		return [4]int{6, e.lockT.id(op.Key), 0, 0}, desc
+		return [4]int{6, e.lockT.id(e.b.LockID(op.Key)), 0, 0}, desc
 	case "LockAcquired":
-		return [4]int{7, e.lockT.id(op.Key), 0, 0}, desc
+		return [4]int{7, e.lockT.id(e.b.LockID(op.Key)), 0, 0}, desc
 	case "Unlock":
-		return [4]int{8, e.lockT.id(op.Key), 0, 0}, desc
+		return [4]int{8, e.lockT.id(e.b.LockID(op.Key)), 0, 0}, desc
 	case "Event":
 		ev := map[string]int{"cert_obtaining": 0, "cert_obtained": 1, "cert_failed": 2, "cached_managed_cert": 3, "new_account_func": 4}
 		c, ok := ev[op.Key]
@@ -802,7 +803,7 @@ func (e *c01issEnv) stepThread(rt *c01issRT) error {
 	var waiters []*c01issRT
 	if kind == "Unlock" {
 		for _, o := range e.threads {
-			if o.state == c01stBlocked && o.waitLock == a.op.Key {
+			if o.state == c01stBlocked && e.b.LockID(o.waitLock) == e.b.LockID(a.op.Key) {
 				waiters = append(waiters, o)
 			}
 		}
@@ -827,7 +828,7 @@ func (e *c01issEnv) stepThread(rt *c01issRT) error {
 		return err
 	}
 	// outcome
-	lo := e.b.Log.At(a.op.Seq)
+	lo := e.b.GetLog().At(a.op.Seq)
 	bad := f == c01fErr || rt.canc
 	out := 0
 	switch {
@@ -939,7 +940,7 @@ func (e *c01issEnv) cancelBlocked(rt *c01issRT) error {
 	if err := e.wait(1); err != nil {
 		return err
 	}
-	e.obs.Steps = append(e.obs.Steps, c01issStep{Tid: rt.id, Fault: c01fCancel, Op: [4]int{7, e.lockT.id(rt.waitLock), 0, 0}, Out: 2, Desc: "cancelled while waiting for " + rt.waitLock})
+	e.obs.Steps = append(e.obs.Steps, c01issStep{Tid: rt.id, Fault: c01fCancel, Op: [4]int{7, e.lockT.id(e.b.LockID(rt.waitLock)), 0, 0}, Out: 2, Desc: "cancelled while waiting for " + rt.waitLock})
 	e.obs.Sched = append(e.obs.Sched, rt.id)
 	return nil
 }
@@ -950,14 +951,26 @@ var c01issRetryOnce sync.Once
 func c01RunIssCase(cs c01issCase) (*c01issObs, error) {
 	c01issCAOnce.Do(func() { c01issCA = doubles.NewCA("issuance harness CA") })
 	c01issRetryOnce.Do(func() { certmagic.VerifLocksSetRetryIntervals([]time.Duration{3 * time.Millisecond}) })
-	e := &c01issEnv{cs: cs, b: doubles.NewMemBackend(), ca: c01issCA, arrivals: make(chan *c01issArrival, 64), rnd: rand.New(rand.NewSource(cs.SchedSeed)),
+	var be c01Backend
+	if cs.Backend == "file" {
+		fb, err := c01NewFileBackend()
+		if err != nil {
+			return nil, err
+		}
+		be = fb
+	} else {
+		mb := doubles.NewMemBackend()
+		mb.HonourCtx = true
+		be = c01MemBackend{mb}
+	}
+	defer be.Close()
+	e := &c01issEnv{cs: cs, b: be, ca: c01issCA, arrivals: make(chan *c01issArrival, 64), rnd: rand.New(rand.NewSource(cs.SchedSeed)),
 		acctKeys: map[string][2]int{}, acctName: map[string][2]string{}}
-	e.b.HonourCtx = true
 	if err := e.seed(); err != nil {
 		return nil, err
 	}
 	defer func() {
-		e.b.Log.SetHook(nil)
+		e.b.GetLog().SetHook(nil)
 		for _, rt := range e.threads {
 			rt.cancel()
 			rt.cache.Stop()
@@ -975,7 +988,7 @@ func c01RunIssCase(cs c01issCase) (*c01issObs, error) {
 			return nil, err
 		}
 	}
-	e.b.Log.SetHook(e.hook)
+	e.b.GetLog().SetHook(e.hook)
 	for _, rt := range e.threads {
 		rt := rt
 		rt.state = c01stRunning
